@@ -82,6 +82,10 @@ def _write_fits(regions, filename, header=None, overwrite=False):
                        ('ORIGIN', 'astropy/regions')])
 
     bin_table = fits.BinTableHDU(data=output, header=header)
+    if 'EXTNAME' not in bin_table.header:
+        # a header that does not name the extension: the reader looks for
+        # the extension called "REGION"
+        bin_table.header['EXTNAME'] = 'REGION'
     bin_table.writeto(filename, overwrite=overwrite)
 
 
